@@ -458,6 +458,69 @@ def k_run(d, order, consumption):
     return problems
 
 
+# ------------------------------------------------------------------ part S: validators that are handed the SAME objects
+# Two validators (own resolvers) may be given the same schema object and the same instance object: what one of
+# them does with those objects is invisible to the other.
+def s_configs(d):
+    import collections
+    enum_schema = {"properties": {"p": {"enum": [["k", 3], {"a": [1, 2]}]}}}
+    props = {"properties": {"size": {"type": "integer"}, "tags": {"type": "array", "minItems": 1}, "name": {"type": "string"}}}
+    closed = {"additionalProperties": False, "properties": {"name": {}}, "minProperties": 1, "maxProperties": 1}
+    return [
+        ("same-schema-object", [enum_schema, enum_schema], lambda: {"p": ["k", 2]}),
+        ("same-schema-object-valid", [enum_schema, enum_schema], lambda: {"p": {"a": [1, 2]}}),
+        ("defaulting-instance", [props, closed], lambda: collections.defaultdict(list, {"name": 5})),
+        ("defaulting-instance-2", [closed, props, closed], lambda: collections.defaultdict(dict, {"name": "x"})),
+    ]
+
+
+def s_alone(d, S, make):
+    x = make()
+    plain = dict(x)
+    return [(e.validator, e.message, tuple(e.absolute_path)) for e in _e1.CLS[d](copy.deepcopy(S)).iter_errors(plain)]
+
+
+def s_run_order(d, ci, order):
+    name, schemas_, make = s_configs(d)[ci]
+    x = make()
+    vals = [_e1.CLS[d](S) for S in schemas_]
+    its = [v.iter_errors(x) for v in vals]
+    got = [[] for _ in vals]
+    for i in order:
+        try:
+            e = next(its[i], None)
+        except Exception as ex:
+            got[i].append(("EXC", type(ex).__name__, ()))
+            continue
+        if e is not None:
+            got[i].append((e.validator, e.message, tuple(e.absolute_path)))
+    problems = []
+    for i, S in enumerate(schemas_):
+        want = s_alone(d, S, make)
+        if got[i] != want:
+            problems.append({"validator": i, "got": got[i], "alone": want})
+    return problems
+
+
+def s_bodies(d, ci):
+    name, schemas_, make = s_configs(d)[ci]
+    x = make()
+    vals = [_e1.CLS[d](S) for S in schemas_]
+    return [(lambda v=v: [(e.validator, e.message, tuple(e.absolute_path)) for e in v.iter_errors(x)]) for v in vals]
+
+
+def s_check(d, ci):
+    name, schemas_, make = s_configs(d)[ci]
+    want = [s_alone(d, S, make) for S in schemas_]
+
+    def check(results):
+        for i, r in enumerate(results):
+            if r != want[i]:
+                return {"thread": i, "got": r, "alone": want[i]}
+        return None
+    return check
+
+
 # ------------------------------------------------------------------ part D: cold start
 # The threads themselves construct resolver and validator, and the package is imported afresh for every
 # schedule, so that every lazily built module-level table is built *during* the explored schedule.
@@ -628,6 +691,11 @@ def plan(ctx):
         for oi in range(len(K_ORDERS)):
             units.append(("K", d, oi))
     sizes["partK_orders"] = len(K_ORDERS)
+    for d in _e1.DRAFTS:
+        for ci in range(len(s_configs(d))):
+            units.append(("S", d, ci, "steps"))
+            if ci < 2:
+                units.append(("S", d, ci, "threads"))
     drafts_d = (7, 4) if ctx.tier == "quick" else _e1.DRAFTS
     with _Warm():
         for d in drafts_d:
@@ -655,7 +723,10 @@ def plan(ctx):
                  "each other and to a validator of the bundled metaschema, constructed and consumed in every order "
                  "of 6 combinations, sequentially and alternating; part K: validators of a draft class, of Python "
                  "subclasses overriding VALIDATORS / TYPE_CHECKER and of an extend()ed class, constructed and consumed "
-                 "in 8 orders, sequentially and alternating, each run on a freshly imported package; part D (cold "
+                 "in 8 orders, sequentially and alternating, each run on a freshly imported package; part S: two or three "
+                 "validators handed the SAME schema object / the SAME instance object (a plain dict with containers, a "
+                 "defaultdict), every interleaving of their next() steps and every thread schedule with <= 1 "
+                 "preemption, each must report what it reports alone; part D (cold "
                  "start): the package is imported afresh for every schedule and the threads themselves construct "
                  "resolver and validator (explicit resolver / implicit / module-level validate / check_schema), so "
                  "lazily built module-level tables are built under every explored schedule; each "
@@ -713,6 +784,32 @@ def run_unit(unit, ctx):
                 "outcomes": outcomes,
                 "counters": {"states": r["schedules"], "transitions": r["steps"],
                              "traces_validated_against_impl": r["schedules"], "checkschema_schedules": r["schedules"]}}
+    if unit[0] == "S":
+        _, d, ci, how = unit
+        name = s_configs(d)[ci][0]
+        nv = len(s_configs(d)[ci][1])
+        if how == "steps":
+            n = 0
+            counts = [len(s_alone(d, S, s_configs(d)[ci][2])) + 1 for S in s_configs(d)[ci][1]]
+            for order in interleavings(counts):
+                n += 1
+                probs = s_run_order(d, ci, order)
+                key = "shared-objects-agree" if not probs else "SHARED-OBJECTS-DISAGREE"
+                outcomes[key] = outcomes.get(key, 0) + 1
+                if probs:
+                    viol.append({"signature": "C18|same-objects|%s|steps" % name, "size": len(order),
+                                 "case": {"part": "S", "draft": d, "config": ci, "order": list(order)}, "detail": probs[:2]})
+            return {"evaluations": n, "nontrivial": n, "violations": viol, "samples": samples, "outcomes": outcomes,
+                    "counters": {"states": n, "transitions": n * nv, "traces_validated_against_impl": n, "partS_orders": n}}
+        r = threads.explore(lambda: s_bodies(d, ci), s_check(d, ci), PKG, "call", 1)
+        for choices, bad in r["problems"]:
+            viol.append({"signature": "C18|same-objects|%s|threads" % name, "size": len(choices),
+                         "case": {"part": "S", "draft": d, "config": ci, "choices": choices}, "detail": bad})
+        outcomes = {"shared-preemptions=%d" % k: v for k, v in r["by_preemptions"].items()}
+        return {"evaluations": r["schedules"], "nontrivial": sum(v for k, v in r["by_preemptions"].items() if k > 0),
+                "violations": viol, "samples": samples, "outcomes": outcomes,
+                "counters": {"states": r["schedules"], "transitions": r["steps"],
+                             "traces_validated_against_impl": r["schedules"], "partS_schedules": r["schedules"]}}
     if unit[0] == "K":
         _, d, oi = unit
         n = 0
@@ -789,6 +886,14 @@ def replay(case, ctx):
         sc = threads.Sched(cs_bodies(drafts), case["choices"], PKG, case["granularity"])
         results, points = sc.run()
         bad = cs_check(drafts)(results)
+        return {"reproduced": bad is not None, "problem": bad}
+    if case["part"] == "S":
+        if "order" in case:
+            probs = s_run_order(case["draft"], case["config"], case["order"])
+            return {"reproduced": bool(probs), "problems": probs[:2]}
+        sc = threads.Sched(s_bodies(case["draft"], case["config"]), case["choices"], PKG, "call")
+        results, points = sc.run()
+        bad = s_check(case["draft"], case["config"])(results)
         return {"reproduced": bad is not None, "problem": bad}
     if case["part"] == "K":
         probs = k_run(case["draft"], tuple(case["order"]), case["consumption"])
